@@ -287,3 +287,39 @@ Proof.
   rewrite concat_app. cbn [concat]. now rewrite app_nil_r.
 Qed.
 End TimeSplit.
+
+(* the decision rules of time_split, one step *)
+Lemma rule_new_window tm a i c incl cur start last x r :
+  expired a i start last (ts_of tm x) = true ->
+  sessions_go tm a i c incl cur start last (x :: r)
+  = (cur :: fst (sessions_go tm a i c incl [x] (ts_of tm x) (ts_of tm x) r), snd (sessions_go tm a i c incl [x] (ts_of tm x) (ts_of tm x) r)).
+Proof. intro H. cbn [sessions_go]. rewrite H. destruct (sessions_go tm a i c incl [x] (ts_of tm x) (ts_of tm x) r). reflexivity. Qed.
+Lemma rule_closing_included tm a i c cur start last x r :
+  expired a i start last (ts_of tm x) = false -> closing_true c x = true ->
+  sessions_go tm a i c true cur start last (x :: r)
+  = ((cur ++ [x]) :: fst (sessions_go tm a i c true [] (ts_of tm x) (ts_of tm x) r), snd (sessions_go tm a i c true [] (ts_of tm x) (ts_of tm x) r)).
+Proof. intros H H0. cbn [sessions_go]. rewrite H, H0. destruct (sessions_go tm a i c true [] (ts_of tm x) (ts_of tm x) r). reflexivity. Qed.
+Lemma rule_closing_excluded tm a i c cur start last x r :
+  expired a i start last (ts_of tm x) = false -> closing_true c x = true ->
+  sessions_go tm a i c false cur start last (x :: r)
+  = (cur :: fst (sessions_go tm a i c false [x] (ts_of tm x) (ts_of tm x) r), snd (sessions_go tm a i c false [x] (ts_of tm x) (ts_of tm x) r)).
+Proof. intros H H0. cbn [sessions_go]. rewrite H, H0. destruct (sessions_go tm a i c false [x] (ts_of tm x) (ts_of tm x) r). reflexivity. Qed.
+Lemma rule_same_window tm a i c incl cur start last x r :
+  expired a i start last (ts_of tm x) = false -> closing_true c x = false ->
+  sessions_go tm a i c incl cur start last (x :: r) = sessions_go tm a i c incl (cur ++ [x]) start (ts_of tm x) r.
+Proof. intros H H0. cbn [sessions_go]. now rewrite H, H0. Qed.
+Lemma expired_iff a i start last new :
+  expired a i start last new = true <->
+  (exists t, a = Some t /\ (start + t <= new)%Z) \/ (exists t, i = Some t /\ (last + t <= new)%Z).
+Proof.
+  unfold expired. destruct a as [ta|], i as [ti|].
+  - destruct (Z.leb_spec (start + ta) new) as [H1|H1]; [split; auto; intros _; left; eauto|].
+    destruct (Z.leb_spec (last + ti) new) as [H2|H2].
+    + split; auto. intros _. right; eauto.
+    + split; [discriminate|]. intros [(t & E & H)|(t & E & H)]; inversion E; subst; lia.
+  - destruct (Z.leb_spec (start + ta) new) as [H1|H1]; [split; auto; intros _; left; eauto|].
+    split; [discriminate|]. intros [(t & E & H)|(t & E & H)]; inversion E; subst; lia.
+  - destruct (Z.leb_spec (last + ti) new) as [H2|H2]; [split; auto; intros _; right; eauto|].
+    split; [discriminate|]. intros [(t & E & H)|(t & E & H)]; inversion E; subst; lia.
+  - split; [discriminate|]. intros [(t & E & H)|(t & E & H)]; discriminate.
+Qed.
